@@ -9,14 +9,15 @@ import c04
 CONFIGS = ['prod']
 EXPLANATION = (
     'SEM (primary): HLCTimestamp::new interpreted with symbolic field bits gives the word layout (tiling, significance order), every accessor hands back ex'
-    'actly its field bits, identities, the fraction round-trips at the division constant; E3 reader by interpretation (piece -> radix -> type -> field). St'
+    'actly its field bits, identities, the fraction round-trips at the division constant; E3 writer and reader by interpretation (printed value -> field bits; piece -> radix -> type -> field). St'
     'ructural fallback / remaining clauses: '
     'Decided clauses: E1 bit-exact layout agreement between the packer and every accessor by abstract interpretation over 64 abstract '
     'bits (fields tile the word without overlap or gap; accessor∘pack is the identity on each field\'s full width; significance order '
     'seconds > fractional > counter > node; archived cast is the identity on the word); E2 the order is the derived order of the single '
     'word (=C04.T1); E3 text form: writer (Display) and reader (FromStr) agree on arity, field order, radix and width per field; '
     'E5 the 4 ms fraction is computed with one resolution constant on both sides (divide when packing, multiply when unpacking, same unit) and fits its 8 bits; '
-    'E4 no may-panic site is reachable from HLCTimestamp::from_str or from the SQLite row decoders, which convert the parse error. '
+    'E4 no may-panic site is reachable from HLCTimestamp::from_str or from the SQLite row decoders, which convert the parse error; '
+    'E6 the text form (seconds not zero-padded, so not order-preserving) is never compared or ordered by an SQL statement. '
     'NOT decided: rkyv round trip beyond cast; that every Duration maps to the intended 4 ms bucket.')
 ASSUMPTIONS = ['foreign callees not in rules/tables.py MAY_PANIC are assumed panic-free (std parse/from_str_radix with constant radix, rusqlite Row::get)']
 
@@ -347,6 +348,12 @@ def check_E3(ctx, facts):
         layout = {'seconds': 32, 'fractional': 24, 'counter': 8, 'node': 0}
         lay_obs = [o for o in ctx.obs if o.rule == 'C10.SEM' and o.key == 'layout|new' and o.ok]
         if lay_obs:
+            try:
+                wr = bits_abs.writer_by_interpretation(facts, fmt, layout, strip_generics(T + 'HLCTimestamp'))
+                if len(wr) == len(writer):
+                    writer = [dict(w, line=writer[i]['line']) for i, w in enumerate(wr)]
+            except (_ai.Unmodelled, _ai.NeedChoice, _ai.PanicPath, IndexError, TypeError, KeyError, AttributeError, ValueError) as e:
+                ctx.note = getattr(ctx, 'note', []) + ['C10.E3: writer not interpreted (%s); structural writer used' % e]
             by_piece, splits = bits_abs.reader_by_interpretation(facts, fs, layout)
             reader = [{'field': by_piece.get(i, (None, None, None))[0], 'radix': by_piece.get(i, (None, None, None))[1], 'ty': by_piece.get(i, (None, None, None))[2],
                        'line': fs.line} for i in range(max(by_piece) + 1)]
@@ -478,3 +485,6 @@ def check(ctx):
             o.rule = 'C10.E2'
     check_E3(ctx, facts)
     check_E4(ctx, facts)
+    # E6: the text form is a column format only — it does not order like the timestamps it denotes, so no SQL statement may compare it
+    import c17
+    c17.check_B8(ctx, facts, rule='C10.E6', only_compare=True)
